@@ -1034,7 +1034,8 @@ func (g *FunctionGenerator[V]) GenerateFunc(ast parser2.AST, gc GeneratorContext
 		if err != nil {
 			return nil, false, err
 		}
-		op := g.opMap[a.Operator].Impl
+		operator := g.opMap[a.Operator]
+		op := operator.Impl
 		return func(st Stack[V], cs []V) (V, error) {
 			aVal, err := aFunc(st, cs)
 			if err != nil {
@@ -1045,7 +1046,7 @@ func (g *FunctionGenerator[V]) GenerateFunc(ast parser2.AST, gc GeneratorContext
 				return zero, a.EnhanceErrorf(err, "error in operation %v", a.Operator)
 			}
 			return op.Calc(st, aVal, bVal)
-		}, aPure && bPure, nil
+		}, operator.IsPure && aPure && bPure, nil
 	case *parser2.ClosureLiteral:
 		if len(a.OuterIdents) == 0 && !a.Recursive {
 			// not a closure, not recursive, just a pure function
